@@ -190,7 +190,8 @@ async fn spawn_node_on(
     listen: Option<std::net::IpAddr>,
 ) -> Option<(ActorRef<NodeServerMessage>, ractor::concurrency::JoinHandle<()>, usize)> {
     let first = ctl.len();
-    let mut server = NodeServer::new(0, "cookie".to_string(), name.to_string(), host.to_string(), None, None);
+    let enc = if tls_mode() { Some(ractor_cluster::IncomingEncryptionMode::Tls(tls_acceptor())) } else { None };
+    let mut server = NodeServer::new(0, "cookie".to_string(), name.to_string(), host.to_string(), enc, None);
     if let Some(a) = listen {
         server = server.with_listen_addr(a);
     }
@@ -431,6 +432,46 @@ enum CutHow {
 
 static LINK_NO: std::sync::atomic::AtomicU32 = std::sync::atomic::AtomicU32::new(0);
 
+/// `--tls 1` (with `--tcp 1`): both nodes accept with `IncomingEncryptionMode::Tls` and dial with the real
+/// `client_connect_enc`. The certificates are static test material generated once with openssl (a CA and
+/// a `localhost` server certificate signed by it, valid 2020-2120; src/tls/): no certificate generator is
+/// among the locked crates, rustls / rustls-pki-types (PEM parser) / aws-lc-rs are.
+static TLS: std::sync::atomic::AtomicBool = std::sync::atomic::AtomicBool::new(false);
+fn tls_mode() -> bool {
+    TLS.load(std::sync::atomic::Ordering::Relaxed)
+}
+const CA_PEM: &[u8] = include_bytes!("../tls/ca.pem");
+const SRV_PEM: &[u8] = include_bytes!("../tls/srv.pem");
+const SRV_KEY: &[u8] = include_bytes!("../tls/srv.key");
+
+fn tls_acceptor() -> tokio_rustls::TlsAcceptor {
+    use tokio_rustls::rustls::pki_types::{pem::PemObject, CertificateDer, PrivateKeyDer};
+    let _ = tokio_rustls::rustls::crypto::aws_lc_rs::default_provider().install_default();
+    let cert = CertificateDer::from_pem_slice(SRV_PEM).expect("server certificate");
+    let key = PrivateKeyDer::from_pem_slice(SRV_KEY).expect("server key");
+    let cfg = tokio_rustls::rustls::ServerConfig::builder().with_no_client_auth().with_single_cert(vec![cert], key).expect("server config");
+    tokio_rustls::TlsAcceptor::from(Arc::new(cfg))
+}
+
+fn tls_connector() -> tokio_rustls::TlsConnector {
+    use tokio_rustls::rustls::pki_types::{pem::PemObject, CertificateDer};
+    let _ = tokio_rustls::rustls::crypto::aws_lc_rs::default_provider().install_default();
+    let mut roots = tokio_rustls::rustls::RootCertStore::empty();
+    roots.add(CertificateDer::from_pem_slice(CA_PEM).expect("ca certificate")).expect("trust anchor");
+    let cfg = tokio_rustls::rustls::ClientConfig::builder().with_root_certificates(roots).with_no_client_auth();
+    tokio_rustls::TlsConnector::from(Arc::new(cfg))
+}
+
+/// the real client connect of the mode: `connect` or `connect_enc`
+async fn real_connect(node: &ActorRef<NodeServerMessage>, ip: std::net::Ipv4Addr, port: u16) -> Result<(), ractor_cluster::node::client::ClientConnectErr> {
+    if tls_mode() {
+        let name = tokio_rustls::rustls::pki_types::ServerName::try_from("localhost").expect("server name");
+        ractor_cluster::client_connect_enc(node, (ip, port), tls_connector(), name).await
+    } else {
+        ractor_cluster::client_connect(node, (ip, port)).await
+    }
+}
+
 struct TcpLink {
     /// run-wide number of this link: both nodes' sessions see the peer address `tcpq::link_ip(g)`
     g: u32,
@@ -524,20 +565,10 @@ async fn tcp_link(
     let ip = tcpq::link_ip(g);
     let (l, lp) = tcpq::listen_on(ip).ok()?;
     let d = dialler.clone();
-    let h = tokio::spawn(async move { ractor_cluster::client_connect(&d, (std::net::Ipv4Addr::from(ip), lp)).await.is_ok() });
+    let h = tokio::spawn(async move { real_connect(&d, std::net::Ipv4Addr::from(ip), lp).await.is_ok() });
     let from_dialler = tcpq::accept_one(&l, 20).await?;
-    let mut guard = 0;
-    while !h.is_finished() {
-        schedule(ctl, rng, 5, st).await;
-        guard += 1;
-        if guard > 2000 {
-            return None;
-        }
-    }
-    if !h.await.unwrap_or(false) {
-        st.bump("tcp_client_connect_failed");
-        return None;
-    }
+    // the relay is complete before the dialler's connect has returned: with TLS the handshake itself
+    // runs through the relay (and through the acceptor's gated listener task)
     let to_acceptor = tcpq::dial_from(ip, acceptor_port).ok()?;
     let link = TcpLink {
         g,
@@ -549,6 +580,22 @@ async fn tcp_link(
     let (ar, aw) = to_acceptor.into_split();
     tokio::spawn(tcp_pump(dr, aw, rng.fork(), Some(link.budget.clone()), link.cut.clone(), link.how.clone()));
     tokio::spawn(tcp_pump(ar, dw, rng.fork(), None, link.cut.clone(), link.how.clone()));
+    let mut guard = 0;
+    while !h.is_finished() {
+        schedule(ctl, rng, 5, st).await;
+        guard += 1;
+        if guard > 20_000 {
+            return None;
+        }
+    }
+    if !h.await.unwrap_or(false) {
+        // raw TCP: cannot happen on an accepting listener; TLS: the handshake died with a doomed link -
+        // `connect_enc` returned Err(Encryption) and (model: `setupFails` / `okTlsFails`) neither node
+        // may get a session out of it
+        st.bump("tcp_client_connect_failed");
+        let _ = link.cut.send(true);
+        return None;
+    }
     st.bump("tcp_links");
     Some(link)
 }
@@ -565,7 +612,7 @@ async fn tcp_refused(ctl: &ractor::verif::Controller, rng: &mut Rng, st: &mut St
     let before = node.get_children().len();
     let d = node.clone();
     let h = tokio::spawn(async move {
-        match ractor_cluster::client_connect(&d, ("127.0.0.1", port)).await {
+        match real_connect(&d, std::net::Ipv4Addr::LOCALHOST, port).await {
             // the error must be the socket error, and say so
             Err(e) => {
                 use std::error::Error;
@@ -784,7 +831,9 @@ async fn tcp_case(log: &mut Log, st: &mut Stats, rng: &mut Rng, case_no: u64) {
                 drop(guard);
             }
             schedule(&w.ctl, rng, 400_000, st).await;
-            w.starved[side].push(g);
+            if !tls_mode() {
+                w.starved[side].push(g);
+            } // TLS: the harness never speaks TLS on it - the acceptor's handshake fails, NO session
             drop(sock);
             schedule(&w.ctl, rng, 400_000, st).await;
             st.bump("tcp_accept_error_phases");
@@ -1051,6 +1100,7 @@ async fn main() {
     let mut st = Stats::default();
     let tcp = args.u64("tcp", 0) == 1;
     TCP.store(tcp, Ordering::Relaxed);
+    TLS.store(tcp && args.u64("tls", 0) == 1, Ordering::Relaxed);
     tcpq::STRICT.store(tcp, Ordering::Relaxed);
     for c in 0..cases {
         if tcp {
